@@ -371,6 +371,14 @@ def switch_after_call(b, bi):
     return None
 
 
+def b_is_adaptor_call(b, bi):
+    t = b.blocks[bi]["t"]
+    if t["k"] != "call":
+        return False
+    n = callee_names(t)
+    return bool(n) and n[0].rsplit("::", 1)[-1] in ("find", "any", "position", "all")
+
+
 def check_fields(fg, res, val_o):
     fam = {k: b for k, b in fg.bodies.items() if b.owner == val_o}
     found = {"p_own": None, "p_eval": None, "p_out": None, "inputs_len": None, "p_out_empty": None, "circ_validate": None, "dup": None}
@@ -391,13 +399,43 @@ def check_fields(fg, res, val_o):
                 ca = sa.field_names(CIRC) if sa else set()
                 cc = sc.field_names(CIRC) if sc else set()
                 tt = blk["t"]
+                # range test: idx (op) bound, bound = p_max or input_regs.len()
+                def is_bound(f, cset):
+                    return f == {"p_max"} or (cset == {"input_regs"} and not f)
+                if b.id != b.owner and s["p"]["l"] == 0 and not s["p"]["pr"]:
+                    # the predicate of `iter().find / any / position (idx >= n)` or `all(idx < n)` over the list
+                    for idx_f, bnd_f, bnd_c, flip in ((fa, fc, cc, False), (fc, fa, ca, True)):
+                        # (the element parameter of the predicate is linked to every argument of the adaptor,
+                        # including the closure that captured the bound)
+                        if "p_out" in idx_f and idx_f <= {"p_out", "p_max"} and "p_out" not in bnd_f and is_bound(bnd_f, bnd_c):
+                            o = {"Ge": "Le", "Le": "Ge", "Gt": "Lt", "Lt": "Gt"}.get(op, op) if flip else op
+                            for pk, pb in fam.items():
+                                for pbi, pt in pb.calls():
+                                    pn = callee_names(pt)
+                                    tl = pn[0].rsplit("::", 1)[-1] if pn else ""
+                                    if tl not in ("find", "any", "position", "all") or not any(a_["k"] != "const" and b.id in a_["p"]["ty"] for a_ in pt["args"]):
+                                        continue
+                                    sw = switch_after_call(pb, pbi)
+                                    if sw is None:
+                                        continue
+                                    sblock, tm2, other2 = sw
+                                    if (tl in ("find", "position") and o == "Ge"):
+                                        rej = tm2.get("1", other2)
+                                    elif tl == "any" and o == "Ge":
+                                        rej = other2 if "0" in tm2 else tm2.get("1", other2)
+                                    elif tl == "all" and o == "Lt":
+                                        rej = tm2.get("0", other2)
+                                    else:
+                                        if found["p_out"] is None:
+                                            found["p_out"] = ("weak", pb, pbi, "predicate `%s` in %s() is not the range idiom" % (o, tl))
+                                        continue
+                                    okc, _ = edge_fail_closed(pb, sblock, rej)
+                                    found["p_out"] = ("ok" if okc else "open", pb, pbi, "%s(idx %s party count) over the list, reject edge %s" % (tl, o, "only reaches Err" if okc else "can reach Ok"))
+                    continue
                 if tt["k"] != "switch" or tt["o"]["k"] == "const" or tt["o"]["p"]["l"] != s["p"]["l"]:
                     continue
                 tm = {v: tb for v, tb in tt["ts"]}
                 zero, other = tm.get("0"), tt["else"]
-                # range test: idx (op) bound, bound = p_max or input_regs.len()
-                def is_bound(f, cset):
-                    return f == {"p_max"} or (cset == {"input_regs"} and not f)
                 for idx_f, bnd_f, bnd_c, flip in ((fa, fc, cc, False), (fc, fa, ca, True)):
                     for name in ("p_own", "p_eval", "p_out"):
                         if idx_f == {name} and is_bound(bnd_f, bnd_c):
@@ -522,7 +560,19 @@ def check_fields(fg, res, val_o):
             res.bad(rule, inst, "%s: %s" % (labels[name], f[3]), where(f[1], f[2]))
     # p_out range check must be inside a loop over p_out (every element): its block lies on a cycle
     f = found["p_out"]
-    if f and f[0] == "ok":
+    if f and f[0] == "ok" and b_is_adaptor_call(f[1], f[2]):
+        # find / any / position / all visit the elements themselves: the receiver must be the whole list
+        b, bi = f[1], f[2]
+        bk_ = [k for k, bb in fam.items() if bb is b][0]
+        t = b.blocks[bi]["t"]
+        si = SliceInfo(fg, fg.operand_nodes(bk_, t["args"][0]))
+        SHORTEN = {"take", "skip", "filter", "step_by", "take_while", "skip_while", "windows", "chunks", "chunks_exact", "split_at", "split_first", "split_last", "first", "last", "get", "nth", "filter_map"}
+        shorten = [callee_names(t2)[-1] for (_b, _bi, t2) in si.calls if callee_names(t2) and callee_names(t2)[-1].rsplit("::", 1)[-1] in SHORTEN]
+        if shorten:
+            res.bad("R10.field", "validate|p_out|every-element", "the range test does not visit every element of p_out (iterator passes through %s)" % sorted(set(shorten)), where(b, bi))
+        else:
+            res.ok("R10.field", "validate|p_out|every-element", where(b, bi), "the range predicate is applied by an adaptor over the whole list")
+    elif f and f[0] == "ok":
         b, bi = f[1], f[2]
         on_cycle = bi in b.reachable_from(b.succ()[bi][0]) or any(bi in b.reachable_from(s) for s in b.succ()[bi])
         # the iterator feeding the check must visit every element: only length-preserving adaptors
